@@ -338,7 +338,15 @@ fn draw_req(rng: &mut Rng, focus: Focus, idx: usize, n_users: usize) -> Req {
         1 => "_udp2".to_string(),
         2 => "_icmp".to_string(),
         // literal destinations
-        3 | 4 => authority_of(&draw_addr(rng, if focus == Focus::Egress { None } else { Some(false) }), port),
+        3 | 4 => {
+            let want = match focus {
+                Focus::Egress => None,
+                // C10's policy-refusal outcome (310 / 311): a literal the policy refuses
+                Focus::Responses if rng.chance(1, 6) => Some(true),
+                _ => Some(false),
+            };
+            authority_of(&draw_addr(rng, want), port)
+        }
         // host names
         5 | 6 => {
             let name = format!("n{}.sim.test", idx);
@@ -1669,6 +1677,35 @@ fn judge_authorised(
                 "C03",
                 format!("egress:{}:refusal-reported-as-{}-{:?}", proto, status, w),
                 format!("request {} ({}) to refused addresses {:?}: status {} warning {:?}", i, r.target, usable, status, w),
+            );
+        } else if {
+            // 311 is the loopback code, 310 the non-routable one (C10): decided where the
+            // candidates leave no doubt - all plainly loopback (127/8, ::1), or none loopback in
+            // any spelling (IPv4-mapped and IPv4-compatible forms stay open)
+            let plain_lo = |a: &&SocketAddr| match a.ip() {
+                std::net::IpAddr::V4(v) => v.is_loopback(),
+                std::net::IpAddr::V6(v) => v.is_loopback(),
+            };
+            let any_lo = |a: &&SocketAddr| match a.ip() {
+                std::net::IpAddr::V4(v) => v.is_loopback(),
+                std::net::IpAddr::V6(v) => {
+                    let o = v.octets();
+                    v.is_loopback() || (o[..10] == [0u8; 10] && o[12] == 127)
+                }
+            };
+            let want = if !usable.is_empty() && usable.iter().all(plain_lo) {
+                Some(311)
+            } else if !usable.iter().any(any_lo) {
+                Some(310)
+            } else {
+                None
+            };
+            want.is_some() && w != want
+        } {
+            c10(
+                out,
+                format!("resp:{}:policy-refusal-coded-{:?}-for-{}", proto, w, if w == Some(310) { "loopback" } else { "non-routable" }),
+                format!("request {} ({}) to {:?}: warning {:?}, the documents give 311 to loopback and 310 to other non-routable destinations", i, r.target, usable, w),
             );
         } else if hosthdr.is_none() {
             c10(
